@@ -14,8 +14,9 @@ MEASURES = ["degree", "retarded_degree", "advanced_degree",
 def _observe(kind, x, t, mvflag, tnone):
     from pyunicorn.timeseries import VisibilityGraph
     o = {"exc": "", "adj": [], "m": {}}
-    vg, exc = enc.call(VisibilityGraph, np.array(x, dtype=float),
-                       timings=None if tnone else np.array(t, dtype=float),
+    x = np.array(x, dtype=float)
+    vg, exc = enc.call(VisibilityGraph, x if np.isnan(x).any() else enc.represent(x, repr(list(x)))[0],
+                       timings=None if tnone else enc.represent(t, repr(list(t)))[0],
                        missing_values=bool(mvflag), horizontal=(kind == "hor"),
                        silence_level=3)
     if exc:
